@@ -642,3 +642,9 @@ func VerifSrcSetAbsolute(srcset string, pageURL *nurl.URL) string {
 	domutil.MakeAllSrcSetAbsolute(n, pageURL)
 	return dom.GetAttribute(n, "srcset")
 }
+
+// VerifBlocks: the grouping of Text elements into blocks, the verdict of the article
+// extractor on the blocks, and the flags ApplyToModel writes back (one pass).
+func VerifBlocks(root *html.Node, pageURL *nurl.URL, skipUnlikely bool) extractor.VerifBlocksData {
+	return extractor.NewContentExtractor(root, pageURL, nil).VerifBlocks(skipUnlikely)
+}
